@@ -10,7 +10,6 @@ package sched
 
 import (
 	"fmt"
-	"os"
 	"runtime"
 	"runtime/debug"
 	"strings"
@@ -499,8 +498,9 @@ func RunOnce(prefix []PrefixItem, horizon int, keepTrace bool, body func()) *Out
 	}
 	ex = nil
 	if strings.HasPrefix(e.panicMsg, "DIVERGENCE") {
-		fmt.Fprintln(os.Stderr, e.panicMsg)
-		panic(e.panicMsg)
+		// the environment answered differently than in the parent execution (a source of
+		// nondeterminism the harness does not own, e.g. Go map iteration order): never a verdict
+		out.End = "divergence"
 	}
 	return out
 }
